@@ -90,9 +90,10 @@ type Scenario struct {
 	// slow consumer in real time (the library has no clock seam): every
 	// ConsStallEvery-th arrival of a writer goroutine at one of its hook sites
 	// sleeps ConsStallMs before it parks
-	ConsStallMs    int `json:"cons_stall_ms,omitempty"`
-	ConsStallEvery int `json:"cons_stall_every,omitempty"`
-	Note    string            `json:"note,omitempty"`
+	ConsStallMs    int    `json:"cons_stall_ms,omitempty"`
+	ConsStallEvery int    `json:"cons_stall_every,omitempty"`
+	ConsStallSite  string `json:"cons_stall_site,omitempty"` // only at this hook site (e.g. "cons.dxf.save": the writer's final step)
+	Note           string `json:"note,omitempty"`
 }
 
 // Sched describes the schedule policy.
@@ -117,32 +118,32 @@ type Env struct {
 
 // Job is one top-level library call.
 type Job struct {
-	ID        int      `json:"id"`
-	Kind      string   `json:"kind"` // script3 script2 mcu mco msu msq dc2 dc3v1 dc3v2 buf3 buf2 wt save eval load
-	Sink      string   `json:"sink"` // tri stl 3mf dxf svg
-	Model     string   `json:"model,omitempty"`
-	Cells     int      `json:"cells,omitempty"`
-	N         int      `json:"n,omitempty"`
-	Batches   [][]Run  `json:"batches,omitempty"`  // per producer: run-length list of batch sizes
-	StallMs   int      `json:"stall_ms,omitempty"` // scripted renderers: real-time pause after the first batch (a slow renderer; the library has no clock seam, so this is wall-clock time)
-	Name      string   `json:"name,omitempty"`     // output file name (default job<id>.<ext>): spaces, non-ASCII, format verbs, long names, odd extensions
-	Pre       int      `json:"pre,omitempty"`      // bytes of unrelated content already stored at the output path before the call
-	Share     bool     `json:"share,omitempty"`    // take the renderer value (and, in single-job groups, the model object) from the episode's pool, as a program that keeps them in variables does
-	CloseAt   []int    `json:"close_at,omitempty"` // single producer: call Close() before these batch indices (mid-stream flush)
-	EvalStallMs int    `json:"eval_stall_ms,omitempty"` // real renderers: the EvalStallAt-th evaluation takes this long in real time
-	EvalStallAt int    `json:"eval_stall_at,omitempty"`
-	Fresh     bool     `json:"fresh,omitempty"`    // eval family: the callers mostly query points nobody has queried before
-	Warm      int      `json:"warm,omitempty"`     // eval family: sequential warm-up evaluations at distinct points before the concurrent phase
-	Coords    string   `json:"coords,omitempty"`   // index | wild
-	CoordSeed uint64   `json:"coord_seed,omitempty"`
-	Fault     Fault    `json:"fault"`
-	EvalMod   uint32   `json:"eval_mod,omitempty"` // park one evaluation in k (0 = never)
-	WriteMod  uint32   `json:"write_mod,omitempty"`
-	Leaves    bool     `json:"leaves,omitempty"`  // wrap leaves of harness-built composites
-	Callers   int      `json:"callers,omitempty"` // eval family
-	Points    int      `json:"points,omitempty"`
-	Ops       []string `json:"ops,omitempty"`  // load family: storage fault operators
-	Base      string   `json:"base,omitempty"` // load family: base file
+	ID          int      `json:"id"`
+	Kind        string   `json:"kind"` // script3 script2 mcu mco msu msq dc2 dc3v1 dc3v2 buf3 buf2 wt save eval load
+	Sink        string   `json:"sink"` // tri stl 3mf dxf svg
+	Model       string   `json:"model,omitempty"`
+	Cells       int      `json:"cells,omitempty"`
+	N           int      `json:"n,omitempty"`
+	Batches     [][]Run  `json:"batches,omitempty"`       // per producer: run-length list of batch sizes
+	StallMs     int      `json:"stall_ms,omitempty"`      // scripted renderers: real-time pause after the first batch (a slow renderer; the library has no clock seam, so this is wall-clock time)
+	Name        string   `json:"name,omitempty"`          // output file name (default job<id>.<ext>): spaces, non-ASCII, format verbs, long names, odd extensions
+	Pre         int      `json:"pre,omitempty"`           // bytes of unrelated content already stored at the output path before the call
+	Share       bool     `json:"share,omitempty"`         // take the renderer value (and, in single-job groups, the model object) from the episode's pool, as a program that keeps them in variables does
+	CloseAt     []int    `json:"close_at,omitempty"`      // single producer: call Close() before these batch indices (mid-stream flush)
+	EvalStallMs int      `json:"eval_stall_ms,omitempty"` // real renderers: the EvalStallAt-th evaluation takes this long in real time
+	EvalStallAt int      `json:"eval_stall_at,omitempty"`
+	Fresh       bool     `json:"fresh,omitempty"`  // eval family: the callers mostly query points nobody has queried before
+	Warm        int      `json:"warm,omitempty"`   // eval family: sequential warm-up evaluations at distinct points before the concurrent phase
+	Coords      string   `json:"coords,omitempty"` // index | wild
+	CoordSeed   uint64   `json:"coord_seed,omitempty"`
+	Fault       Fault    `json:"fault"`
+	EvalMod     uint32   `json:"eval_mod,omitempty"` // park one evaluation in k (0 = never)
+	WriteMod    uint32   `json:"write_mod,omitempty"`
+	Leaves      bool     `json:"leaves,omitempty"`  // wrap leaves of harness-built composites
+	Callers     int      `json:"callers,omitempty"` // eval family
+	Points      int      `json:"points,omitempty"`
+	Ops         []string `json:"ops,omitempty"`  // load family: storage fault operators
+	Base        string   `json:"base,omitempty"` // load family: base file
 }
 
 // Run is a run-length encoded batch size: Count batches of Size items
@@ -172,6 +173,7 @@ type JobResult struct {
 	AtReturn   *Check  `json:"at_return,omitempty"`
 	AtEnd      *Check  `json:"at_end,omitempty"`
 	Digest     string  `json:"digest,omitempty"`
+	DigestRet  string  `json:"digest_at_return,omitempty"` // C09: digest of the sink the moment the call returned
 	Digest2    string  `json:"digest_no_owner,omitempty"` // DXF: digest with owner handles (group 330) blanked
 	Items      int     `json:"items,omitempty"`
 	FaultFired bool    `json:"fault_fired,omitempty"`
